@@ -334,6 +334,40 @@ def judge_by_laws(rec, pvl, reader, t, wit, holder, ref):
                       f"{st}: {res}"[:200])
 
 
+EOF_HAZARDS = [
+    # unterminated at the very end of the text (no line break behind it), the
+    # last character being a delimiter of another kind
+    "a = 1\nnote = \"they said 'hi'", "a = 1\nnote = 'say \"x\"", "note = \"x'", "n = '\"",
+    "a = 1\nb = 2 /* c *", "a = 1 /* c /", "a = 1 /*", "a = 1 <m", "a = 1 <m<", "a = (1, \"x'",
+    "a = 5 <m\nb = 6 <s>\nc = 7\nEND", "a = 5 <m b = 6 <s>", "a = (1, 2) <m\nb = 3 <s>\nEND\n",
+    "a = 1\nb = \"unterminated\nc = 'x'", "GROUP = g\n a = \"x'",
+]
+
+
+def eof_hazards(rec, pvl, holder):
+    """Every reader must reject these (judged directly: they are ill-formed by
+    construction)."""
+    for text in EOF_HAZARDS:
+        for reader in gt.READERS:
+            rec.case(("eof-hazard", reader, text), True)
+            rec.count("end_of_text_hazards")
+            parser = traced_parser(pvl, reader, holder)
+            try:
+                st, res = load(pvl, reader, text, parser=parser)
+            except Spin as e:
+                st, res = "Spin", e
+            family = "omni" if reader in OMNI else "strict"
+            wit = {"reader": reader, "text": text, "workload": "end-of-text hazards"}
+            if st == "ok":
+                rec.violation(CHECK, reader, "module-returned-for-ill-formed-text",
+                              {"family": family, "ref": "unterminated-at-end-of-text"},
+                              wit, f"returned {[k for k, _ in list(res)]}")
+            elif st not in ("LexerError", "ParseError"):
+                rec.violation(CHECK, reader, "ill-formed-text-raises-undocumented-type",
+                              {"family": family, "ref": "unterminated-at-end-of-text",
+                               "lib": st}, wit, f"{st}: {res}"[:200])
+
+
 def corpus_texts(pvl):
     import os
     root = os.path.join(common.REPO, "tests", "data")
@@ -357,6 +391,8 @@ def shard(i, n, tier, seed, rec, hb):
             case(rec, pvl, reader, f"C05-{seed}-{reader}-{j}", tier, holder)
             char_damage_case(rec, pvl, reader, f"C05-char-{seed}-{reader}-{j}", tier,
                              holder)
+    if i == 0:
+        eof_hazards(rec, pvl, holder)
     for k, (name, text) in enumerate(corpus_texts(pvl)):
         if k % n != i:
             continue
